@@ -57,7 +57,7 @@ class _Gen(object):
             v = self.draw(st.integers(-(1 << 31), (1 << 31) - 1))
         if v >= 0 and self.chance(6):
             return hex(v)
-        if self.integer(0, 999) < 3:
+        if self.integer(0, 999) in (437, 438):      # (not 0: Hypothesis favours the ends of a range)
             return self.pick(("99999999999999999999999", "4294967296", "-9223372036854775808", "0xffffffffffffffffff", "18446744073709551615"))
         return str(v)
 
